@@ -77,6 +77,20 @@ theorem worker_terminates_within {maxQ maxB : Nat} (hb : 1 ≤ maxB) (pre post :
   have hr := rank2_le s hQ
   exact done_of_wcount post s s' hI hQ hsd h1 hh hp (by rw [hq] at hr; omega)
 
+/-- the same **without any assumption on the environment**: along every continuation whatsoever, each record that a
+    producer still commits and each ticket that a `ForceFlush` caller still issues after `is_shutdown` (there are finitely
+    many of either: each thread passes the `is_shutdown` test at most once more) costs at most 64 further worker
+    transitions -/
+theorem worker_terminates {maxQ maxB : Nat} (hb : 1 ≤ maxB) (pre post : List Act) (s s' : St)
+    (h0 : run (init maxQ maxB) pre = some s) (hsd : s.isShutdown = true) (h1 : run s post = some s')
+    (hfair : 32 * (maxQ + (s.pending - s.notified)) + 32 + 64 * ((s'.head - s.head) + (s'.pending - s.pending)) ≤ wcount post) :
+    s'.wpc = .done := by
+  have hI := reachable_inv maxQ maxB hb pre s h0
+  have hQ := reachable_qc maxQ maxB hb pre s h0
+  have hq : s.maxQ = maxQ := (cfg_run _ _ pre h0).2
+  have hr := rank2_le s hQ
+  exact done_of_wcount_noisy post s s' hI hQ hsd h1 (by rw [hq] at hr; omega)
+
 /-- the measure behind it, for one transition after `is_shutdown`: a worker transition strictly lowers `rank2`; a
     transition of any other thread that neither commits a record nor issues a ticket leaves it alone -/
 theorem rank2_decreases {maxQ maxB : Nat} (hb : 1 ≤ maxB) (pre : List Act) (s s' : St) (a : Act)
